@@ -18,7 +18,8 @@ LEVEL = "exploration"
 EXHAUSTIVE = True
 RULE = ("E1: (a,b) 10 codes x all option subsets of size <= 3 over 22 option items x 4 payloads, protected and unprotected over the "
         "wire encoding; (c) all pairings of 3 requests with 3 responses (with and without own partial IV); (d) every single-bit flip "
-        "of ciphertext and OSCORE option, field-level edits (PIV +-1, PIV length, KID, KID context, flag bits), foreign keys, over "
+        "of ciphertext and OSCORE option, field-level edits (PIV +-1, PIV length, KID, KID context, flag bits), each followed by the genuine "
+        "message on the same recipient; foreign contexts (other secret / salt / ID context, absent vs empty ID context), over "
         "sender/recipient ID lengths 0-7 x ID context {none, empty, 8 bytes} x 9 sequence numbers up to 2^40-2 (x 5 algorithms in the "
         "thorough tier); distinct = distinct (family, shape, outcome)")
 ASSUMPTIONS = [
@@ -40,12 +41,12 @@ class Ctx(o.CanProtect, o.CanUnprotect, o.SecurityContextUtils):
         pass
 
 
-def make(sid, rid, idc, alg="AES-CCM-16-64-128", ssn=0, secret=SECRET, window=32):
+def make(sid, rid, idc, alg="AES-CCM-16-64-128", ssn=0, secret=SECRET, window=32, salt=SALT):
     c = Ctx()
     c.alg_aead = o.algorithms[alg]
     c.hashfun = o.hashfunctions["sha256"]
     c.sender_id, c.recipient_id, c.id_context = sid, rid, idc
-    c.derive_keys(SALT, secret)
+    c.derive_keys(salt, secret)
     c.sender_sequence_number = ssn
     c.recipient_replay_window = o.ReplayWindow(window, lambda: None)
     c.recipient_replay_window.initialize_empty()
@@ -193,7 +194,23 @@ def mutated(outer_bytes, new_option=None, new_payload=None):
     return rc.encode((t[0], t[1], t[2], t[3], opts, t[5] if new_payload is None else new_payload))
 
 
-def attempt(res, sv, data, orig, case, kind, strict=False):
+def genuine_still_accepted(res, sv, genuine, orig, case, kind):
+    """The round-trip clause after tampering: a manipulated copy that was rejected must not have used up the genuine message
+    (the recipient's replay state was fresh before the manipulated copy arrived)."""
+    if genuine is None:
+        return
+    try:
+        inner, _ = sv.unprotect(Message.decode(genuine))
+        ok = original_fields(inner) == orig
+        obs = "other message" if not ok else None
+    except Exception as e:
+        ok, obs = False, core.exc_desc(e)
+    if not ok:
+        res.violate(Violation("genuine-rejected-after-forgery", "the genuine message still unprotects to the original", obs,
+                              "oscore.py:unprotect", case, key="after:" + kind.split("%")[0]))
+
+
+def attempt(res, sv, data, orig, case, kind, strict=False, genuine=None):
     """Unprotect a manipulated datagram: must raise a protection error, or (representation-only change) give the original."""
     res.evaluations += 1
     sv.recipient_replay_window.initialize_empty()
@@ -207,6 +224,7 @@ def attempt(res, sv, data, orig, case, kind, strict=False):
     except (o.ProtectionInvalid, o.NotAProtectedMessage):
         res.outcomes.add(("tamper", "rejected"))
         res.signatures.add(("tamper", kind, "rejected"))
+        genuine_still_accepted(res, sv, genuine, orig, case, kind)
         return
     except Exception as e:
         res.violate(Violation("tamper-raises-other", "a protection error", core.exc_desc(e), core.site_of(e), case,
@@ -218,6 +236,19 @@ def attempt(res, sv, data, orig, case, kind, strict=False):
     else:
         res.outcomes.add(("tamper", "equivalent-accepted"))
         res.signatures.add(("tamper", kind, "equivalent"))
+
+
+def foreign_contexts(sid, rid, idc, alg, ssn):
+    """Contexts of another security association: same IDs but another master secret / salt / ID context - in particular the
+    near misses 'no ID context' against 'empty ID context', which RFC 8613 section 3.2.1 keeps apart (nil against h'')."""
+    out = [("other-secret", make(sid, rid, idc, alg, ssn, secret=bytes(16))),
+           ("other-salt", make(sid, rid, idc, alg, ssn, salt=b"\x01" + SALT[1:])),
+           ("other-idcontext", make(sid, rid, (idc or b"") + b"x", alg, ssn))]
+    if idc != b"":
+        out.append(("idcontext-empty-for-" + ("absent" if idc is None else "8bytes"), make(sid, rid, b"", alg, ssn)))
+    if idc is not None:
+        out.append(("idcontext-absent-for-" + ("empty" if idc == b"" else "8bytes"), make(sid, rid, None, alg, ssn)))
+    return out
 
 
 def tamper(res, sidlen, ridlen, idc, alg, ssn, full):
@@ -247,17 +278,17 @@ def tamper(res, sidlen, ridlen, idc, alg, ssn, full):
         for b in range(8) if (full or i in (0, len(payload) - 1)) else (0, 7):
             p2 = bytearray(payload)
             p2[i] ^= 1 << b
-            attempt(res, sv, mutated(data, new_payload=bytes(p2)), orig, dict(base, flip=["payload", i, b]), "ct-flip")
+            attempt(res, sv, mutated(data, new_payload=bytes(p2)), orig, dict(base, flip=["payload", i, b]), "ct-flip", genuine=data)
     for i in range(len(optv)):
         for b in range(8):
             o2 = bytearray(optv)
             o2[i] ^= 1 << b
-            attempt(res, sv, mutated(data, new_option=bytes(o2)), orig, dict(base, flip=["option", i, b]), "opt-flip%d" % (0 if i == 0 else 1))
+            attempt(res, sv, mutated(data, new_option=bytes(o2)), orig, dict(base, flip=["option", i, b]), "opt-flip%d" % (0 if i == 0 else 1), genuine=data)
     # truncations of the payload and the option
     for k in range(len(payload)):
-        attempt(res, sv, mutated(data, new_payload=payload[:k]) if k else mutated(data, new_payload=b""), orig, dict(base, trunc=["payload", k]), "ct-trunc")
+        attempt(res, sv, mutated(data, new_payload=payload[:k]) if k else mutated(data, new_payload=b""), orig, dict(base, trunc=["payload", k]), "ct-trunc", genuine=data)
     for k in range(len(optv)):
-        attempt(res, sv, mutated(data, new_option=optv[:k]), orig, dict(base, trunc=["option", k]), "opt-trunc")
+        attempt(res, sv, mutated(data, new_option=optv[:k]), orig, dict(base, trunc=["option", k]), "opt-trunc", genuine=data)
     # field-level edits through the library's own compressor
     piv = ssn.to_bytes(5, "big").lstrip(b"\0") or b"\0"
 
@@ -290,10 +321,9 @@ def tamper(res, sidlen, ridlen, idc, alg, ssn, full):
         # edits that change the *value* of PIV, KID or ID context must fail; dropping the optional ID context is a
         # representation the sender could have chosen itself
         strict = name != "kctx-dropped" and not (name == "kctx-empty" and idc == b"") and not (name == "kid-empty" and sid == b"")
-        attempt(res, sv, mutated(data, new_option=ov), orig, dict(base, edit=name), "edit-" + name, strict=strict)
+        attempt(res, sv, mutated(data, new_option=ov), orig, dict(base, edit=name), "edit-" + name, strict=strict, genuine=data)
     # another context's keys (same IDs, other master secret; other ID context)
-    for name, other in (("other-secret", make(rid, sid, idc, alg, 0, secret=bytes(16))),
-                        ("other-idcontext", make(rid, sid, (idc or b"") + b"x", alg, 0))):
+    for name, other in foreign_contexts(rid, sid, idc, alg, 0):
         res.evaluations += 1
         try:
             other.unprotect(Message.decode(data))
@@ -324,6 +354,17 @@ def tamper_response(res, cl, sv, rid_cl, rid_sv, base, full):
         t = rc.decode(data, check_formats=False)
         optv = rc.opt(t[4], 9)
         payload = t[5]
+        for name, other in foreign_contexts(cl.sender_id, cl.recipient_id, cl.id_context, base["alg"], 0):
+            res.evaluations += 1
+            try:
+                other.unprotect(Message.decode(data), rid_cl)
+                res.violate(Violation("foreign-context-accepted", "protection error", "response unprotected", "oscore.py:unprotect",
+                                      dict(base2, foreign=name), key="resp-" + name))
+            except (o.ProtectionInvalid, o.NotAProtectedMessage):
+                res.signatures.add(("foreign-resp", name))
+            except Exception as e:
+                res.violate(Violation("tamper-raises-other", "a protection error", core.exc_desc(e), core.site_of(e), dict(base2, foreign=name),
+                                      key="resp:%s@%s" % (type(e).__name__, core.site_of(e))))
 
         def att(newdata, case, kind, strict=False):
             res.evaluations += 1
